@@ -31,7 +31,7 @@ pub fn unit_call(w: &mut W, call: Call, data: &[u8], place: Place) -> bool {
     if w.tier == Tier::Tiny {
         // Miri-sized budget: at most 3 calls per generated buffer
         w.tiny_calls += 1;
-        if w.tiny_calls > 3 {
+        if w.tiny_calls > if w.prop == "C02" { 1 } else { 3 } {
             return false;
         }
     }
@@ -576,7 +576,8 @@ pub fn unit_buffer(w: &mut W, kind: Kind, data: &[u8], tag: Tag) {
             }
         }
         "C02" => {
-            if data.len() > 300 {
+            if data.len() > 300 || (w.tier == Tier::Tiny && (data.len() > 48 || rot % 2 == 0)) {
+                // under Miri a chain of len+1 monitored calls costs ~0.1 s per call
                 return;
             }
             let es = kind.entries();
